@@ -78,6 +78,10 @@ def oracle(case, res, extra):
             res.stats["point_outside_domain"] += 1
             continue
         asg = {n: int(v) for n, v in top.items() if n in set(cr.input_params)}
+        # the numbers are handed over in every type the API accepts for a whole number: int, float, and their texts
+        vkind = rng.choice(["int", "int", "float", "str", "strfloat"])
+        pres = {"int": int, "float": float, "str": str, "strfloat": lambda v: str(float(v))}[vkind]
+        res.stats["value_kind_" + vkind] += 1
         # the same assignment reached through different HISTORIES of evaluate calls: at once; in two numeric steps; or with one
         # input first rewritten in terms of a fresh symbol (K := zz_h + d) and the numbers supplied afterwards
         mode = rng.choice(["once", "once", "two-steps", "symbolic-first"]) if len(asg) >= 1 else "once"
@@ -85,15 +89,15 @@ def oracle(case, res, extra):
             if mode == "two-steps" and len(asg) >= 2:
                 ks = sorted(asg)
                 cut = rng.randint(1, len(ks) - 1)
-                evaluate(evaluate(cr, {k_: asg[k_] for k_ in ks[:cut]}).routine, {k_: asg[k_] for k_ in ks[cut:]})
+                evaluate(evaluate(cr, {k_: pres(asg[k_]) for k_ in ks[:cut]}).routine, {k_: pres(asg[k_]) for k_ in ks[cut:]})
             elif mode == "symbolic-first":
                 k0 = rng.choice(sorted(asg))
                 d_ = rng.randint(0, 3)
                 step1 = evaluate(cr, {k0: f"zz_h + {d_}"}).routine
-                evaluate(step1, {**{k_: v_ for k_, v_ in asg.items() if k_ != k0}, "zz_h": asg[k0] - d_})
+                evaluate(step1, {**{k_: pres(v_) for k_, v_ in asg.items() if k_ != k0}, "zz_h": pres(asg[k0] - d_)})
             else:
                 mode = "once"
-                evaluate(cr, asg)
+                evaluate(cr, {k_: pres(v_) for k_, v_ in asg.items()})
             raised = None
         except Exception as e:
             raised = e
@@ -104,7 +108,7 @@ def oracle(case, res, extra):
             kinds |= {m[2] for m in mm}
             if raised is None:
                 res.violation("failing-input", f"size mismatch {mm[0]} is neither rejected by compilation nor by evaluation at this assignment",
-                              {"qref": case.qref, "assignments_in_order": list(asg.items()), "history": mode}, "no error", "BartiqCompilationError")
+                              {"qref": case.qref, "assignments_in_order": [[k_, pres(v_)] for k_, v_ in asg.items()], "history": mode, "value_type": vkind}, "no error", "BartiqCompilationError")
                 return
             if not isinstance(raised, BartiqCompilationError):
                 res.violation("failing-input", f"size mismatch is reported as {type(raised).__name__}, not as a compilation error",
